@@ -326,8 +326,9 @@ def run(pid):
                 core.must_violate(bad, "NoLockLeak", cfg + " as read")
             jobs = allcfg[cfg]
             has_oversize = any(j["fault"] in ("oversize", "oversize_edge") for js in jobs.values() for j in js)
-            ecfg = "Edges_SendPath_%s.cfg" % short
-            open(os.path.join(core.SPEC, ecfg), "w").write(re.sub(r"^(INVARIANT|PROPERTY).*\n", "", open(os.path.join(core.SPEC, "MC_SendPath_%s.cfg" % short)).read(), flags=re.M)
+            # derived edge-dump configuration: written to the run's scratch directory (never into /verif/spec), passed to TLC by absolute path
+            ecfg = os.path.join(r.scratch.path, "Edges_SendPath_%s.cfg" % short)
+            open(ecfg, "w").write(re.sub(r"^(INVARIANT|PROPERTY).*\n", "", open(os.path.join(core.SPEC, "MC_SendPath_%s.cfg" % short)).read(), flags=re.M)
                                                           .replace("SPECIFICATION FairSpec", "SPECIFICATION Spec") + "ACTION_CONSTRAINT Edge\n")
             eg = core.tlc("MC_SendPath", ecfg, r.scratch, workers=1, timeout=1200)
             g = core.Graph(eg.printed())
